@@ -51,6 +51,14 @@ proof fn rounding_facts(s: int, p: int)
     lemma_mod_multiples_basic(q + 1, p);
     assert((p * q + p) % p == 0) by { assert(p * q + p == (q + 1) * p) by(nonlinear_arith); }
 }
+// distance (seconds) between a UTC date-time and a wall-clock reading of it
+spec fn wall_off(u: NaiveDateTime, w: NaiveDateTime) -> int { (dn(w.date) * 86400 + w.time.secs as int) - (dn(u.date) * 86400 + u.time.secs as int) }
+// same window argument when the stamp is taken on the wall-clock reading and the addition on the UTC value (less than a day apart)
+proof fn window_in_range_zoned(u: NaiveDateTime, w: NaiveDateTime, d: int)
+    requires dtwf(u), dtwf(w), w.time.frac == u.time.frac, -86400 < wall_off(u, w) < 86400, i64::MIN <= stamp(w) <= i64::MAX, -9223372036854775807 <= d <= 9223372036854775807
+    ensures DN_MIN() * DAYNS() <= instant(u) + d - 2_000_000_000, instant(u) + d + 2_000_000_000 < (DN_MAX() + 1) * DAYNS(),
+            instant(w) == instant(u) + wall_off(u, w) * 1_000_000_000
+{}
 // the i64-nanosecond window lies deep inside the date range, so the final `original +/- delta` cannot overflow
 proof fn window_in_range(x: NaiveDateTime, d: int)
     requires dtwf(x), nonleap(x.time) || true, i64::MIN <= stamp(x) <= i64::MAX, -9223372036854775807 <= d <= 9223372036854775807
@@ -75,6 +83,23 @@ def mono(name):
     return sig2
 
 
+HINT_Z = ("let delta_down = stamp % span;",
+          "        proof { lemma_fundamental_div_mod(stamp as int, span as int); lemma_mod_bound(stamp as int, span as int);\n"
+          "                if stamp < 0 { lemma_fundamental_div_mod(-(stamp as int), span as int); lemma_mod_bound(-(stamp as int), span as int); neg_mod(stamp as int, span as int); }\n"
+          "                window_in_range_zoned(original.datetime, naive, span as int); window_in_range_zoned(original.datetime, naive, -(span as int)); window_in_range_zoned(original.datetime, naive, 0); }")
+
+
+def mono_z(name):
+    """R7: textual monomorphisation of a generic fn of round.rs at T := DateTime<Tz>"""
+    s = src(F)
+    sig, body, line = s.fn(name)
+    sig2 = re.sub(r'<T>', '<Tz: TimeZone>', sig)
+    sig2 = sig2.replace('original: T', 'original: DateTime<Tz>').replace('Result<T, RoundingError>', 'Result<DateTime<Tz>, RoundingError>')
+    sig2 = re.sub(r'\bwhere\b.*$', '', sig2, flags=re.S).strip()
+    DROPS['R7 generic fn monomorphised at DateTime<Tz>'] += 1
+    return sig2
+
+
 def opsubst(body_src):
     out = []
     call = r'(TimeDelta::nanoseconds\((?:[^()]|\([^()]*\))*\))'
@@ -89,10 +114,17 @@ def build(contracts):
     u.lemma_owner = {'calendar': 'date', 'rust_div': 'timedelta'}
     u.rlimit = 120
     u.raw(header(P.HEADER) + P.STD_SPECS + P.EXPECT + P.RUST_DIV_AX + P.CALENDAR_AX + '''
-trait Offset: Sized + Clone {}
+trait Offset: Sized + Clone {
+    spec fn fix_spec(&self) -> FixedOffset;
+    fn fix(&self) -> (r: FixedOffset)
+        ensures r == self.fix_spec(), offwf(r);
+}
 trait TimeZone: Sized + Clone { type Offset: Offset; }
 #[derive(Copy, Clone)] struct Utc;
-impl Offset for Utc {}
+impl Offset for Utc {
+    spec fn fix_spec(&self) -> FixedOffset { FixedOffset { local_minus_utc: 0 } }
+    #[verifier::external_body] fn fix(&self) -> (r: FixedOffset) { unimplemented!() }
+}
 impl TimeZone for Utc { type Offset = Utc; }
 ''')
     u.struct('src/naive/internals.rs', 'YearFlags')
@@ -136,6 +168,20 @@ impl TimeZone for Utc { type Offset = Utc; }
     for n in ['duration_round', 'duration_trunc', 'duration_round_up']:
         sig, body, line = s.fn(n)
         u.prove(F, n, cid=n, replace_sig=mono(n), subst=opsubst(body), hints=[HINT])
+    # the same three generic functions at T := DateTime<Tz> (generic in the zone), over the contracts of DateTime<Tz> + / - TimeDelta
+    for n in ['duration_round', 'duration_trunc', 'duration_round_up']:
+        sig, body, line = s.fn(n)
+        u.prove(F, n, cid=n + '_zoned', rename=n + '_zoned', replace_sig=mono_z(n), subst=opsubst(body), hints=[HINT_Z])
+    u.raw('impl<Tz: TimeZone> DateTime<Tz> {')
+    u.stub(FDT, 'overflowing_naive_local', 'impl<Tz: TimeZone> DateTime<Tz> {', cid='DateTime::overflowing_naive_local')
+    u.stub(FDT, 'add', 'impl<Tz: TimeZone> Add<TimeDelta> for DateTime<Tz> {', cid='DateTime::Add__add', rename='Add__add')
+    u.stub(FDT, 'sub', 'impl<Tz: TimeZone> Sub<TimeDelta> for DateTime<Tz> {', cid='DateTime::Sub__sub', rename='Sub__sub')
+    IMPL_DRZ = 'impl<Tz: TimeZone> DurationRound for DateTime<Tz> {'
+    for n in ['duration_round', 'duration_trunc', 'duration_round_up']:
+        u.prove(F, n, IMPL_DRZ, cid='DateTime::DurationRound__' + n, rename='DurationRound__' + n,
+                replace_sig='fn %s(self, duration: TimeDelta) -> Result<DateTime<Tz>, RoundingError>' % n,
+                subst=[('%s(self.overflowing_naive_local(), self, duration)' % n, '{ let naive = self.overflowing_naive_local(); %s_zoned(naive, self, duration) }' % n, 'R7 call of the generic fn re-pointed to its DateTime<Tz> instance (argument evaluated first, as in Rust)')])
+    u.raw('}')
     u.raw('impl NaiveDateTime {')
     IMPL_DR = 'impl DurationRound for NaiveDateTime {'
     for n in ['duration_round', 'duration_trunc', 'duration_round_up']:
